@@ -56,6 +56,9 @@ pub enum Corner {
     Empty,
     AllSame,
     AliasStorm,
+    /// one long chain through all nodes, each link through a wrapper that
+    /// adds registry entries of its own: nesting ~100 deep under one root
+    DeepChain,
 }
 
 #[derive(Clone, PartialEq, Eq, Debug, Hash, Serialize, Deserialize)]
@@ -194,6 +197,7 @@ pub fn gen_cfg(rng: &mut Rng) -> RegCfg {
         2 => Corner::Empty,
         3 => Corner::AllSame,
         4..=7 => Corner::AliasStorm,
+        8 | 9 => Corner::DeepChain,
         _ => Corner::None,
     };
     let active = match rng.below(10) {
@@ -518,6 +522,10 @@ pub fn generate(rng: &mut Rng) -> RegScenario {
             c.corpus_bias = 0;
         }
         Corner::Empty => c.script_len = 0,
+        Corner::DeepChain => {
+            c.active = K as u8;
+            c.cycle_bias = c.cycle_bias.min(300);
+        }
         Corner::AliasStorm => {
             c.alias_bias = 900;
             c.repeat_bias = 700;
@@ -529,6 +537,17 @@ pub fn generate(rng: &mut Rng) -> RegScenario {
     }
     let perm = gen_perm(rng);
     let mut nodes: Vec<NodeSpec> = (0..K as u8).map(|i| gen_node(rng, &c, i)).collect();
+    if c.corner == Corner::DeepChain {
+        let links = [W::OptionOption, W::VecVec, W::BoxOption, W::Option, W::Vec, W::OptionRc, W::VecBox, W::Arr1, W::Tup1, W::BTreeSet, W::Cow, W::Range, W::DGen, W::DTree];
+        for i in 0..K - 1 {
+            let w = *rng.pick(&links);
+            let f = FieldSpec { name: Some(pool::ident(rng, &c.strs)), ty: TyRef { w, n: i as u8 + 1 }, type_name: None, docs: vec![] };
+            match &mut nodes[i].def {
+                DefSpec::Composite(fs) => fs.insert(0, f),
+                d => *d = DefSpec::Composite(vec![f]),
+            }
+        }
+    }
     if c.corner == Corner::HugeTuple {
         let n = rng.range(20, 60);
         nodes[0].def = DefSpec::Tuple((0..n).map(|_| gen_ref(rng, &c, Some(0))).collect());
@@ -546,6 +565,9 @@ pub fn generate(rng: &mut Rng) -> RegScenario {
         };
         earlier.extend(req.refs());
         msgs.push((client, req));
+    }
+    if c.corner == Corner::DeepChain {
+        msgs.insert(0, (0, Req::Register(TyRef::bare(0))));
     }
     let owner = network(rng, &c, &msgs);
     // the replica receives the same multiset of messages (duplicates
